@@ -264,6 +264,19 @@ def py_namedtuple(name, fields, defaults=None, **kw):
 
 
 def install(theories, interp):
+    def py_reduce(fn, seq, *init):
+        seq = list(seq)
+        if init:
+            acc = init[0]
+        else:
+            if not seq:
+                raise SymRaise(ExcVal("TypeError", ("reduce() of empty iterable with no initial value",)))
+            acc, seq = seq[0], seq[1:]
+        for x in seq:
+            acc = fn(acc, x)
+        return acc
+
+    theories["functools"] = {"reduce": py_reduce}
     theories["collections"] = {"namedtuple": py_namedtuple, "defaultdict": lambda *a, **k: dict()}
     theories["elexsolver.QuantileRegressionSolver"] = {"QuantileRegressionSolver": qr_factory(interp)}
     sc = make_scipy(interp)
